@@ -939,6 +939,8 @@ class Engine(object):
                 if attr in ("value",):
                     return [(st, base)]
             return [(st, BoundBuiltin(attr, base))]
+        if isinstance(base, FuncV) and attr in ("__name__", "__doc__", "__qualname__", "__module__"):
+            return [(st, StrV(getattr(base.node, "name", "<lambda>")))]       # (only ever used in messages)
         raise EngineError("attribute %s of %r" % (attr, type(base).__name__))
 
     DOC_ONLY_DECORATORS = ("add_signature_to_docstring", "wraps", "add_int_enums_to_docstring")
